@@ -13,6 +13,7 @@ NOT_DECIDED = ("correctness of the reorder buffer's arithmetic beyond its shape,
 DECIDED += "; R12 source / destination are never swapped on the TCP send path (send_loopback / send_message get (pair.local, pair.remote))"
 DECIDED += "; R13 a FIN is never answered with a RST (closed stream; read half dropped)"
 DECIDED += "; R13 also: StreamSocket::buffer, which runs only while the stream's table entry exists, builds no RST (segments for a dropped read half are discarded; the open write direction is left alone)"
+DECIDED += '; R14 ReadHalf::put_slice decides from the bytes that remain after the copy whether something is stashed; the stream entry is released by the two Drop impls only (shared C12-R7)'
 ASSUMPTIONS = ["tokio mpsc::channel(n) holds exactly n items", "each direction of a stream has one WriteHalf (one FIN)"]
 
 SEG = "turmoil::envelope::Segment"
